@@ -203,7 +203,11 @@ func vsoProbe(c vsoCase, out *vsoOut, followBound time.Duration) error {
 	if c.Srv == "outbound" {
 		obs = rig.cc.outboundObserver
 	}
-	resultBound := 5 * time.Second
+	// "never" is the failure, not "slow": growing to 2^27 counters allocates and copies hundreds of MB (seconds under load)
+	resultBound := 15 * time.Second
+	if c.Big {
+		resultBound = 120 * time.Second
+	}
 	short := 500 * time.Millisecond
 	hold, hw, herr, _ := vsoOpen(rig, c.Srv, vsoWellFormed(3, vsoHoldShard), 10*time.Second)
 	if hw != "served-open" {
